@@ -39,12 +39,19 @@ def join(toks):
     return "".join(out) + "\n"
 
 
-def observe(binary, root, text):
+LIB = "print \"lib\"\nexport val: int = 1\nexport type T int\n"
+
+
+def observe(binary, root, text, lib=False):
     d = root / f"slot{threading.get_ident()}"
     d.mkdir(exist_ok=True)
     for f in d.glob("*.mmm"):
         f.unlink()
     (d / "main.ms").write_text(text)
+    if lib:
+        (d / "lib.ms").write_text(LIB)
+    elif (d / "lib.ms").exists():
+        (d / "lib.ms").unlink()
     r = C.run_proc([binary, "compile", "main.ms", "--quick"], cwd=d, timeout=10, mem_mb=4096)
     err = C.strip_ansi(r["err"])
     site = ""
@@ -103,6 +110,10 @@ def run(tier, replay=None):
     for c in skel:
         if not c["valid"] or "fromEmpty" in c["path"] or tier == "thorough":
             cases.append(dict(kind="skeleton", src=c["id"], toks=[], text=render.program(_json.loads(_json.dumps(c["prog"]["body"])))))
+    # boundary expressions x syntactic contexts, import path shapes x forms x placements (GenTotal.tla, exhaustive)
+    tot, gt = gen.run_generator("GenTotal", work / "total", dict(), timeout=600)
+    for c in tot:
+        cases.append(dict(kind="form:" + c["kind"], src=c["id"], toks=[], text="\n".join(c["lines"]) + "\n", lib=bool(c["lib"])))
     # plus the untouched corpus and its token-joined form
     for s in srcs:
         cases.append(dict(kind="corpus", src=str(s.relative_to(work)), toks=[], text=s.read_text(errors="replace")))
@@ -111,7 +122,7 @@ def run(tier, replay=None):
     def one(c):
         text = c.get("text") or join(c["toks"])
         c["text"] = text
-        c["obs"] = observe(binary, root, text)
+        c["obs"] = observe(binary, root, text, lib=c.get("lib", False))
         return c
     C.pmap(one, cases)
     classes = {}
@@ -123,8 +134,9 @@ def run(tier, replay=None):
                           dict(kind=c["kind"], files={"main.ms": c["text"]}, observed=o))
     rep.coverage = dict(
         evaluations=len(cases), distinct_nontrivial=len(cases), outcome_classes=classes,
-        illegal_placement_skeletons=sum(1 for c in cases if c["kind"] == "skeleton"), single_edits_enumerated=n1, single_edits_run=len(ed1), multi_edit_run=len(ed2), derivations_run=len(der), corpus_files=len(srcs),
-        rule="MSGrammar.tla: (a) token-edit machine over the tokenised example corpus: all single delete/duplicate/swap edits (quick: deterministic thinning) and seeded simulations of up to 3 edits incl. replace/insert from a 55-token vocabulary; (b) leftmost derivations of the transcribed grammar with a depth budget (seeded -simulate); (c) the corpus itself; distinct by token sequence",
+        illegal_placement_skeletons=sum(1 for c in cases if c["kind"] == "skeleton"),
+        expression_context_forms=sum(1 for c in cases if c["kind"] == "form:expr"), import_forms=sum(1 for c in cases if c["kind"] == "form:import"), single_edits_enumerated=n1, single_edits_run=len(ed1), multi_edit_run=len(ed2), derivations_run=len(der), corpus_files=len(srcs),
+        rule="MSGrammar.tla: (a) token-edit machine over the tokenised example corpus: all single delete/duplicate/swap edits (quick: deterministic thinning) and seeded simulations of up to 3 edits incl. replace/insert from a 55-token vocabulary; (b) leftmost derivations of the transcribed grammar with a depth budget (seeded -simulate); (c) the corpus itself; (d) GenCtl skeletons with break / continue / return in illegal places; (e) GenTotal.tla: 95 boundary or ill-formed expressions x 26 syntactic contexts and 19 import path shapes x 4 import forms x 7 placements, exhaustive; distinct by token sequence / text",
         samples=[dict(kind=c["kind"], text=c["text"][:160], outcome=c["obs"]["cls"]) for c in cases[:: max(1, len(cases) // 3)][:3]],
         states=g1.distinct, transitions=g1.generated, slowest_compile_s=round(max(c["obs"]["wall"] for c in cases), 2),
     )
